@@ -120,9 +120,18 @@ def execute(hl_mod, d, seq, maxHandles, pruneEvery, method, plan, continue_after
     Returns (inj, history{path:[data]}, raised[(idx, path, exc, legit)], contents{path:str|None}, error or None)"""
     inj = Injector(dict(plan, permanent=os.path.join(d, plan['permanent']) if plan.get('permanent') else None))
     # files left behind by an earlier run into the same directory: the first open of a path in this run replaces them
-    for fname in stale:
-        with (gzip.open(os.path.join(d, fname), 'wt') if method == 1 else builtins.open(os.path.join(d, fname), 'w')) as f:
-            f.write('@stale_record_of_an_earlier_run\n')
+    # (every second stale file was written by an earlier HandleLimiter of this very process - a re-run in the same interpreter)
+    earlier = hl_mod.HandleLimiter(maxHandles=2, pruneEvery=2, compressionLevel=1)
+    for si, fname in enumerate(stale):
+        if si % 2:
+            import io as _io
+            import contextlib as _cl
+            with _cl.redirect_stdout(_io.StringIO()):
+                earlier.write(os.path.join(d, fname), '@stale_record_of_an_earlier_run\n', method=method)
+        else:
+            with (gzip.open(os.path.join(d, fname), 'wt') if method == 1 else builtins.open(os.path.join(d, fname), 'w')) as f:
+                f.write('@stale_record_of_an_earlier_run\n')
+    earlier.close()
     inj.install(d)
     hist = {}
     raised = []
